@@ -19,9 +19,9 @@ func c19Bail(format string, a ...any) { panic(c19Unsupported{fmt.Sprintf(format,
 
 func c19FieldName(name string, inMsgOK bool) string {
 	switch name {
-	case "System", "Prompt", "Response", "Messages", "Role", "Content":
+	case "System", "Prompt", "Response", "Messages", "Role", "Content", "Tools":
 		return name
-	case "Tools", "Images", "ToolCalls":
+	case "Images", "ToolCalls":
 		c19Bail("field %s", name)
 	}
 	if l := strings.ToLower(name); l == "messages" || l == "response" {
@@ -130,6 +130,14 @@ func c19Node(n parse.Node) string {
 	case *parse.TextNode:
 		return "T " + zzverif.Hex(x.Text)
 	case *parse.ActionNode:
+		// `{{ json .Tools }}` prints what `{{ .Tools }}` prints (api.Tools.String() is json.Marshal)
+		if p := x.Pipe; p != nil && len(p.Decl) == 0 && len(p.Cmds) == 1 && len(p.Cmds[0].Args) == 2 {
+			if id, ok := p.Cmds[0].Args[0].(*parse.IdentifierNode); ok && id.Ident == "json" {
+				if a := c19Arg(p.Cmds[0].Args[1]); a == "f Tools" || a == "v Tools" {
+					return "A " + a
+				}
+			}
+		}
 		s := c19Pipe(x.Pipe, false)
 		// a `.Response` field inside a larger expression would be cut in the middle of the pipeline
 		if c19MentionsResponse(x.Pipe) && s != "f Response" {
@@ -223,7 +231,7 @@ func c19MsgBody(r *zzverif.Rng, depth int) string {
 		case x < 8:
 			sb.WriteString(c19Act(r, ".Content"))
 		case x == 8:
-			sb.WriteString(c19Act(r, "$.System"))
+			sb.WriteString(c19Act(r, zzverif.Pick(r, []string{"$.System", "$.System", "$.Tools"})))
 		case x == 9 && r.Chance(1, 6):
 			sb.WriteString(c19Act(r, ".Missing")) // exec error inside a message
 		default:
@@ -263,7 +271,9 @@ func c19GenMessagesTemplate(r *zzverif.Rng) string {
 			}
 			sb.WriteString(c19Act(r, "end"))
 		case x == 4:
-			sb.WriteString(c19Act(r, zzverif.Pick(r, []string{".Response", ".Prompt", ".Missing", `eq .System "x"`, `not .System`, `and .System "y"`, `or .Missing .System`})))
+			sb.WriteString(c19Act(r, zzverif.Pick(r, []string{".Response", ".Prompt", ".Missing", `eq .System "x"`, `not .System`, `and .System "y"`, `or .Missing .System`, ".Tools", "json .Tools", `or .Tools "none"`})))
+		case x == 5 && r.Chance(1, 2):
+			sb.WriteString(c19Act(r, zzverif.Pick(r, []string{"if .Tools", "if and .Tools .System", "if not .Tools"})) + zzverif.Pick(r, c19TmplText) + c19Act(r, ".Tools") + c19Act(r, "end"))
 		default:
 			ranges++
 			head := "range .Messages"
@@ -336,7 +346,7 @@ func c19LeanBytes(b []byte) string {
 
 func c19LeanFld(name string) string {
 	switch name {
-	case "System", "Prompt", "Response", "Messages", "Role", "Content":
+	case "System", "Prompt", "Response", "Messages", "Role", "Content", "Tools":
 		return "." + strings.ToLower(name)
 	}
 	return ".other"
@@ -389,4 +399,37 @@ func c19LeanList(l *parse.ListNode) string {
 		}
 	}
 	return "[" + strings.Join(parts, ", ") + "]"
+}
+
+// c19RendersAllContent: does the SOURCE of the template show that every message's content is printed?
+// (a top-level `range` over .Messages / $.Messages whose body has a top-level `{{ .Content }}`).
+// Purely syntactic, on the parse tree: it does not use Execute or Vars, so it states what the template
+// author asked for even when the template layer misbehaves.
+func c19RendersAllContent(tm *template.Template) bool {
+	overMessages := func(p *parse.PipeNode) bool {
+		if p == nil || len(p.Cmds) != 1 || len(p.Cmds[0].Args) != 1 {
+			return false
+		}
+		switch x := p.Cmds[0].Args[0].(type) {
+		case *parse.FieldNode:
+			return len(x.Ident) == 1 && x.Ident[0] == "Messages"
+		case *parse.VariableNode:
+			return len(x.Ident) == 2 && x.Ident[0] == "$" && x.Ident[1] == "Messages"
+		}
+		return false
+	}
+	for _, n := range tm.Tree.Root.Nodes {
+		rn, ok := n.(*parse.RangeNode)
+		if !ok || !overMessages(rn.Pipe) || rn.List == nil {
+			continue
+		}
+		for _, b := range rn.List.Nodes {
+			if a, ok := b.(*parse.ActionNode); ok && a.Pipe != nil && len(a.Pipe.Decl) == 0 && len(a.Pipe.Cmds) == 1 && len(a.Pipe.Cmds[0].Args) == 1 {
+				if f, ok := a.Pipe.Cmds[0].Args[0].(*parse.FieldNode); ok && len(f.Ident) == 1 && f.Ident[0] == "Content" {
+					return true
+				}
+			}
+		}
+	}
+	return false
 }
